@@ -368,6 +368,16 @@ H_ISX(isspace, ch == 32 || (ch >= 9 && ch <= 13))
 /* ---------------- plain harness units (no contract instrumentation) ---------------- */
 #ifdef VERIF_PLAIN
 void aws_raise_error_private(int err) { g_last_error = err; g_raise_count++; }
+int aws_last_error(void) { return g_last_error; } /* error.c: the thread-local error slot, here the ghost g_last_error */
+/* CBMC 6.11 has no library model of memchr: reference implementation (plain harness units only; the contract units use the
+ * assumed memchr contract of contracts/byte_buf.h) */
+void *memchr(const void *s, int c, size_t n) {
+    const unsigned char *p = s;
+    for (size_t i = 0; i < n; ++i) if (p[i] == (unsigned char)c) return (void *)(p + i);
+    return NULL;
+}
+/* assert.c: prints a backtrace and aborts; reaching it from a harness is an obligation */
+void aws_fatal_assert(const char *cond_str, const char *file, int line) { __CPROVER_assert(0, "aws_fatal_assert is not reached"); abort(); }
 #endif
 #include <stdlib.h>
 /* an arbitrary valid buffer over caller-owned storage: arbitrary capacity (up to CBMC's object size), arbitrary length and contents */
@@ -505,8 +515,7 @@ void h_eq_loops_bounded(void) { GHOST_RESET();
     uint8_t a[EQB_N + 1], b[EQB_N + 1], t[256];
     size_t la = nondet_size_t(), lb = nondet_size_t();
     __CPROVER_assume(la <= EQB_N && lb <= EQB_N);
-    for (size_t i = 0; i <= EQB_N; ++i) { a[i] = nondet_u8(); b[i] = nondet_u8(); }
-    for (int i = 0; i < 256; ++i) t[i] = nondet_u8();
+    /* a, b, t are uninitialised locals: arbitrary contents */
     /* b doubles as a C string of length lb */
     for (size_t i = 0; i < EQB_N; ++i) if (i < lb) __CPROVER_assume(b[i] != 0);
     b[lb] = 0;
@@ -527,4 +536,43 @@ void h_eq_loops_bounded(void) { GHOST_RESET();
     __CPROVER_assert(aws_byte_cursor_compare_lookup(&ca, &cb, t) == ord, "compare_lookup == order of the first differing mapped byte, then length");
     __CPROVER_assert(aws_byte_cursor_satisfies_pred(&ca, aws_isspace) == all_space, "satisfies_pred == reference (both directions)");
     if (same && la == EQB_N) CANARY("equal at full length"); else if (same_nc) CANARY("equal ignoring case"); else CANARY("different");
+}
+
+/* bounded stand-in (NOT counted as proof) for aws_byte_cursor_split_on_char_n / _split_on_char with the REAL
+ * aws_byte_cursor_next_split, memchr model and array list (static storage, so that the list can fill up): inputs of up to
+ * SPLIT_N bytes, any split character, any n, list capacities 1..SPLIT_CAP.  (The contract proof of split_on_char_n with a
+ * loop contract does not come back from the solver, see units.json.) */
+#ifndef SPLIT_N
+#define SPLIT_N 5
+#endif
+#define SPLIT_CAP 3
+void h_split_bounded(void) { GHOST_RESET();
+    uint8_t s[SPLIT_N + 1]; /* one addressable byte after the view: next_split forms input_end + 1 after the last piece (see contracts/byte_buf.h) */
+    size_t n = nondet_size_t(), cap = nondet_size_t(), maxn = nondet_size_t();
+    __CPROVER_assume(n <= SPLIT_N && 1 <= cap && cap <= SPLIT_CAP);
+    char c = (char)nondet_u8();
+    struct aws_byte_cursor store[SPLIT_CAP + 1];
+    struct aws_array_list l;
+    aws_array_list_init_static(&l, store, cap, sizeof(struct aws_byte_cursor));
+    struct aws_byte_cursor in = {.len = n, .ptr = n ? s : NULL};
+    bool use_n = nondet_bool();
+    int r = use_n ? aws_byte_cursor_split_on_char_n(&in, c, maxn, &l) : aws_byte_cursor_split_on_char(&in, c, &l);
+    if (!use_n) maxn = 0;
+    size_t seps = 0; for (size_t i = 0; i < SPLIT_N; ++i) if (i < n && s[i] == (uint8_t)c) seps++;
+    size_t want = seps + 1; if (maxn > 0 && maxn < SIZE_MAX && want > maxn + 1) want = maxn + 1;
+    __CPROVER_assert(r == AWS_OP_SUCCESS || r == AWS_OP_ERR, "split: result code");
+    __CPROVER_assert(l.length <= cap && l.data == (void *)store && l.current_size == cap * sizeof(struct aws_byte_cursor), "split: list stays inside its storage");
+    __CPROVER_assert((r == AWS_OP_SUCCESS) == (want <= cap), "split: fails exactly when the list is too small for the pieces");
+    __CPROVER_assert(r == AWS_OP_SUCCESS ? l.length == want : l.length == cap, "split: number of pieces (all of them, or as many as fit)");
+    size_t w = nondet_size_t();
+    if (w < l.length && n > 0) {
+        struct aws_byte_cursor p = store[w];
+        __CPROVER_assert(__CPROVER_same_object(p.ptr, s) && p.ptr >= s && (size_t)(p.ptr - s) <= n && p.len <= n - (size_t)(p.ptr - s), "split: piece w lies inside the input");
+        size_t j = nondet_size_t();
+        bool last_of_limited = maxn > 0 && w == maxn;
+        if (j < p.len && !last_of_limited) __CPROVER_assert(p.ptr[j] != (uint8_t)c, "split: pieces contain no split character (except the rest-of-string piece when n is reached)");
+        if (last_of_limited) __CPROVER_assert((size_t)(p.ptr - s) + p.len == n, "split: the piece after n splits is the rest of the input");
+        if (w == 0) __CPROVER_assert(p.ptr == s, "split: first piece starts at the input");
+    }
+    if (r == 0 && l.length > 1) CANARY("several pieces"); else if (r == 0) CANARY("one piece"); else CANARY("list full");
 }
